@@ -234,7 +234,7 @@ class TypeScriptDuplicateAnalyzer(BaseTokenAnalyzer):  # thailint: ignore[srp.vi
         Returns:
             Tuple of (new_import_state, normalized_line or None if should skip)
         """
-        normalized = token_hasher.normalize_line(line)
+        normalized = token_hasher.normalize_line(line, ("//",))
         if not normalized:
             return in_multiline_import, None
 
